@@ -202,7 +202,13 @@ def replay_edges(edges, mode, val, verdict: Verdict, stats):
 
     for e in edges:
         h = e["h"]
-        os_, idL = state_for(h[:-1])
+        try:
+            os_, idL = state_for(h[:-1])
+        except MachineryError:
+            raise
+        except Exception:  # an operation of the prefix raised: reported at that operation's own edge
+            stats["edges_unreachable_after_exception"] = stats.get("edges_unreachable_after_exception", 0) + 1
+            continue
         pre = project(os_)
         op = h[-1]
         try:
@@ -252,6 +258,12 @@ def replay_edges(edges, mode, val, verdict: Verdict, stats):
 # code -> spec: long random sequences validated as traces
 
 
+class StoreFailed(Exception):
+    def __init__(self, what, events, op):
+        super().__init__(what)
+        self.what, self.events, self.op = what, events, op
+
+
 def random_trace(rng: random.Random, mode, n_ops, nvals, max_batch, val):
     """Drive the real object with a random protocol-respecting sequence and
     record every call with its arguments and the projected post-state."""
@@ -291,7 +303,7 @@ def random_trace(rng: random.Random, mode, n_ops, nvals, max_batch, val):
         thr_set = os_.log_likelihood_threshold is not None
         if not strict or thr_set:
             choices += ["add"] * 3
-        if live is not None and last != "threshold":
+        if live is not None and len(live) > 0 and last != "threshold":
             choices += ["threshold"] * 2
         if live is not None and (replace_all or thr_set):
             choices += ["remove"] * 2
@@ -306,7 +318,12 @@ def random_trace(rng: random.Random, mode, n_ops, nvals, max_batch, val):
             op = {"op": "threshold", "b": [], "t": vals.index(os_.samples["logL"][i]) + 1}
         else:
             op = {"op": "remove", "b": [], "t": 0}
-        ret = apply_op(os_, op, idL, val)
+        try:
+            ret = apply_op(os_, op, idL, val)
+        except MachineryError:
+            raise
+        except Exception as ex:   # the store failed an operation inside its protocol: the trace ends here
+            raise StoreFailed(f"{type(ex).__name__}: {ex} in {op['op']}", events, op)
         log(op, ret if c == "remove" else None)
         last = c
     if os_.live_points_indices is not None:
@@ -471,7 +488,15 @@ def main(tier: str) -> int:
                 traces = []
                 for k in range(n_traces):
                     inst = rng.randrange(len(INSTANTIATIONS))
-                    traces.append(random_trace(rng, mode, n_ops, 5, tb, INSTANTIATIONS[inst]))
+                    try:
+                        traces.append(random_trace(rng, mode, n_ops, 5, tb, INSTANTIATIONS[inst]))
+                    except StoreFailed as sf:
+                        v.violation("exception", f"{sf.what} (random protocol-respecting sequence, mode {mode})",
+                                    {"mode": mode, "events": sf.events[-6:], "op": sf.op})
+                        if sf.events:
+                            traces.append(sf.events)
+                if not traces:
+                    continue
                 ok, tres = validate_traces(traces, mode, 5, scratch, v, f"{strict}_{replace_all}")
                 n_traces_ok += ok
                 states += tres.distinct
